@@ -197,7 +197,7 @@ pub fn run_c15(tier: Tier, seed: u64) -> i32 {
   rep.floor("walks_with_skips", tier.pick(200, 5000));
   rep.floor("walks_prefer_fast_check", 200);
   rep.floor("graphs_with_fast_check_modules", 20);
-  let n = tier.pick(12000, 480000);
+  let n = tier.pick(12000, 4800000);
   let acc = par_run(n, |i, acc| one_world(i, seed, acc, "C15", 6));
   rep.finish(acc)
 }
@@ -718,7 +718,7 @@ pub fn run_c02(tier: Tier, seed: u64) -> i32 {
       }
     }
   });
-  let n = tier.pick(9600, 320000);
+  let n = tier.pick(9600, 3200000);
   let acc2 = par_run(n, |i, acc| one_world(i, seed, acc, "C02", 8));
   acc.merge(acc2);
   registry_known_answers(&mut acc);
